@@ -60,9 +60,16 @@ class _B:
     def point(self, key):
         dets = self.draw(self.st.lists(self.st.sampled_from(DETS), min_size=1, max_size=2, unique=True))
         nodes = []
-        if self.resumable and self.chance(0.8):
+        idem = self.profile in ("replay", "replay_data")  # replay-idempotent points: own checkpoint, every motor set
+        if self.resumable and (idem or self.chance(0.8)):
             nodes.append(M("checkpoint"))
-        if self.chance(0.6):
+        if idem:
+            g = self.group()
+            for mm in MOTORS:
+                nodes.append(M("set", mm, float(self.int(-3, 3)) / 2, group=g))
+            nodes.append(M("wait", None, group=g))
+            m = self.choice(MOTORS) if self.chance(0.5) else None
+        elif self.chance(0.6):
             m = self.choice(MOTORS)
             g = self.group()
             nodes += [M("set", m, float(self.int(-3, 3)) / 2, group=g), M("wait", None, group=g)]
@@ -85,6 +92,8 @@ class _B:
     def misc(self, key):
         r = self.runs[key]
         opts = ["null", "sleep", "checkpoint"]
+        if self.profile == "replay_data":
+            opts += ["monitor", "flyer", "subscribe", "configure", "stage_pair"]
         if self.profile in ("general", "replay", "keys", "lifecycle"):
             opts += ["monitor", "flyer", "subscribe", "rewindable", "configure", "stage_pair"]
         if self.profile == "replay":
@@ -222,7 +231,7 @@ class _B:
         if self.chance(0.5):
             stage_devs = self.draw(self.st.lists(self.st.sampled_from(DETS + MOTORS), min_size=1, max_size=2, unique=True))
             self.staged = list(stage_devs)
-        if self.profile == "keys" or (self.profile in ("general", "replay") and self.chance(0.25)):
+        if self.profile == "keys" or (self.profile in ("general", "replay", "replay_data", "lifecycle") and self.chance(0.25)):
             body = self.keyed_runs(size + 1)
         else:
             body = []
@@ -234,7 +243,7 @@ class _B:
             body.insert(pos, ["raise", "PlanError", "generated failure"])
         body = SEQ(*body)
         # cleanup structure
-        style = self.choice(["none", "try_finally", "finalize", "contingency"]) if self.profile not in ("replay",) else self.choice(["none", "try_finally"])
+        style = self.choice(["none", "try_finally", "finalize", "contingency"]) if self.profile not in ("replay", "replay_data") else self.choice(["none", "try_finally"])
         if style == "try_finally":
             handlers = []
             if self.chance(0.4):
@@ -289,7 +298,7 @@ def cases(profile="general"):
         b = _B(draw, st, profile)
         plan = b.plan()
         case = {"name": "gen:" + profile, "plan": plan, "devices": copy.deepcopy(DEVICES), "probe": True}
-        if profile in ("replay",):
+        if profile in ("replay", "replay_data"):
             kinds = ["pause", "suspend", "pause", "defer"]
         elif profile == "lifecycle":
             kinds = ["pause", "defer", "suspend", "abort", "stop", "halt"]
@@ -302,7 +311,7 @@ def cases(profile="general"):
         ninj = draw(st.integers(0 if profile in ("errors",) else 1, 2)) if kinds else 0
         injs = [_injection(draw, st, kinds) for _ in range(ninj)]
         stages = [{"do": "call", "inj": injs}]
-        if profile in ("replay",):
+        if profile in ("replay", "replay_data"):
             for _ in range(3):
                 st2 = {"do": "resume"}
                 if draw(st.integers(0, 3)) == 0:
